@@ -96,7 +96,7 @@ def draw_site_workload(ctx):
                 v.pop('lq', None)
             v['pmin'] = rng.randint(1, n2)
             v['pmax'] = rng.randint(v['pmin'], n2)
-            v['skew'] = rng.choice([None, 0.2, 0.5, 1.0, 2.0, 5.0, 50.0, 3.3])
+            v['skew'] = rng.choice([None, 0.2, 0.5, 1.0, 2.0, 5.0, 50.0, 3.3, 0.0001, 0.003, 5000.0, 100000.0])
             v['numinst'] = 1
             outdir = ge.fresh_outdir(ctx.workdir, 'c17')
             argv = ge.to_argv(v, outdir, rng)
